@@ -400,6 +400,9 @@ type nodePair struct {
 
 func newTree(prof *profile.Profile, o *Options) (g *Graph) {
 	parentNodeMap := make(map[*Node]NodeMap, len(prof.Sample))
+	// Nodes are collected in creation order: distinct tree nodes can carry
+	// the same Info, so sorting alone cannot make their order deterministic.
+	nodes := make(Nodes, 0, len(prof.Location))
 	for _, sample := range prof.Sample {
 		var w, dw int64
 		w = o.SampleValue(sample.Value)
@@ -424,9 +427,17 @@ func newTree(prof *profile.Profile, o *Options) (g *Graph) {
 					nodeMap = make(NodeMap)
 					parentNodeMap[parent] = nodeMap
 				}
+				created := len(nodeMap)
 				n := nodeMap.findOrInsertLine(l, lines[lidx], o)
 				if n == nil {
 					continue
+				}
+				// A new node may bring along a new node for its function.
+				switch created = len(nodeMap) - created; created {
+				case 1:
+					nodes = append(nodes, n)
+				case 2:
+					nodes = append(nodes, n.Function, n)
 				}
 				n.addSample(dw, w, labels, sample.NumLabel, sample.NumUnit, o.FormatTag, false)
 				if parent != nil {
@@ -440,10 +451,6 @@ func newTree(prof *profile.Profile, o *Options) (g *Graph) {
 		}
 	}
 
-	nodes := make(Nodes, 0, len(prof.Location))
-	for _, nm := range parentNodeMap {
-		nodes = append(nodes, nm.nodes()...)
-	}
 	return selectNodesForGraph(nodes, o.DropNegative)
 }
 
